@@ -6,6 +6,7 @@ package c09
 // entry point - returns exactly what it returns alone on a fresh engine: the NEW version.
 
 import (
+	"context"
 	"fmt"
 	"runtime"
 	"sort"
@@ -106,6 +107,102 @@ func checkSwap(c Case) error {
 			failures = failures[:2]
 		}
 		return fmt.Errorf("stale after a concurrent edit: %s", strings.Join(failures, "\n"))
+	}
+	return checkFaultThenRender(c, p, entries)
+}
+
+// checkFaultThenRender: one call FAILS on the shared engine - (a) the page cannot be opened
+// once although Stat still works (a transient read error), (b) Load of a missing file followed
+// by Assign of the program's own data keys and Render on the returned template - and then N
+// goroutines render: every call returns what it returns alone on a fresh engine.
+func checkFaultThenRender(c Case, p cat.Program, entries []string) error {
+	want := map[string]result{}
+	for _, e := range entries {
+		fsys := memfs.FromMap(p.Files)
+		want[e] = callMode(p, p.Engine(fsys), p.NewVue(fsys), e, dataFor(p, c.N), "", false, "")
+	}
+	// (for the failed Load the goroutines use the shared, once-filled BASE template directly:
+	// a per-request Fill would overwrite - and hide - what leaked into the base)
+	baseEntries := []string{"load", "file", "string", "reader"}
+	baseWant := map[string]result{}
+	for _, e := range baseEntries {
+		if !applicable(p, e) {
+			continue
+		}
+		fsys := memfs.FromMap(p.Files)
+		baseWant[e] = callMode(p, p.Engine(fsys).Fill(dataFor(p, c.N)), nil, e, nil, "", true, "")
+	}
+	var failures []string
+	for _, fault := range []string{"transient-open", "failed-load-assign"} {
+		base := fault == "failed-load-assign"
+		w, err := newWorld(c.Prog, Case{N: c.N, BaseTpl: base})
+		if err != nil {
+			return err
+		}
+		ents, wants := entries, want
+		if base {
+			ents, wants = nil, baseWant
+			for _, e := range baseEntries {
+				if _, ok := baseWant[e]; ok {
+					ents = append(ents, e)
+				}
+			}
+			if len(ents) == 0 {
+				continue
+			}
+		}
+		switch fault {
+		case "transient-open":
+			w.fsys.FailRead("page.vuego", fmt.Errorf("too many open files"))
+			for _, e := range entries {
+				callMode(p, w.root, w.vue, e, dataFor(p, c.N), "", false, "")
+			}
+			w.fsys.FailRead("page.vuego", nil)
+		case "failed-load-assign":
+			t := w.root.Load("no-such-page.vuego")
+			for k := range p.GoData() {
+				t = t.Assign(k, "LEAK-"+k)
+			}
+			t = t.Assign("who", "LEAK-who").Assign("title", "LEAK-title")
+			var sink strings.Builder
+			_ = t.Render(context.Background(), &sink)
+		}
+		var mu sync.Mutex
+		var wg sync.WaitGroup
+		start := make(chan struct{})
+		for g := 0; g < c.N; g++ {
+			g := g
+			wg.Add(1)
+			go func() {
+				defer wg.Done()
+				<-start
+				for r := 0; r < c.Reps; r++ {
+					e := ents[(g+r)%len(ents)]
+					got := callMode(p, w.root, w.vue, e, dataFor(p, c.N), "", base, "")
+					if got != wants[e] {
+						mu.Lock()
+						failures = append(failures, fmt.Sprintf("program %s: after one failed call on the engine (%s) a later %s call returned %v, alone on a fresh engine it returns %v", p.Name, fault, e, got, wants[e]))
+						mu.Unlock()
+					}
+				}
+			}()
+		}
+		close(start)
+		done := make(chan struct{})
+		go func() { wg.Wait(); close(done) }()
+		select {
+		case <-done:
+		case <-time.After(stuckAfter):
+			stuck.Store(true)
+			return fmt.Errorf("the concurrent renders did not return within %v", stuckAfter)
+		}
+	}
+	if len(failures) > 0 {
+		sort.Strings(failures)
+		if len(failures) > 2 {
+			failures = failures[:2]
+		}
+		return fmt.Errorf("a failed call left something behind: %s", strings.Join(failures, "\n"))
 	}
 	return nil
 }
